@@ -100,7 +100,7 @@ func InternalEscapeBytes(b []byte, startLoc int, breakNewLines, strip bool) (res
 
   ensures [C01] !strip ==> WFP(res, len(res)) && dep(res, len(res)) == old(dep(b, startLoc))
   ensures [C03] !strip ==> LS(res, len(res))
-  ensures [C01] !strip ==> clean(res, len(res))
+  ensures [C01,C10] !strip ==> clean(res, len(res))
   ensures [C13] memUnchanged()
   ensures (!strip ==> res == b) || fresh(res)
   ensures ref(res) == ref(b) || fresh(res)
